@@ -24,6 +24,9 @@ type Prop struct {
 	Level                   string // exploration | fault_enumeration
 	FaultKinds              []string
 	Chunk                   int // runs per worker process
+	// RaceTest names the test of package rendsim/race that the driver runs as the
+	// auxiliary real-parallel -race stage for this property ("" = none).
+	RaceTest string
 }
 
 var registry = map[string]*Prop{}
